@@ -103,7 +103,11 @@ func plan(c *vf.Ctx) []spec {
 		"end:-9", "end:-8", "end:-2", "end:-1", "end:0"}
 	no := len(cases) + len(storm)
 	var cuts []bcase
-	for _, mode := range []string{"reset", "eof"} {
+	// reset: faultnet cuts the next connection the follower dials. eof / rst: the
+	// connection the backup command is written on (pooled or new) is closed /
+	// reset by the peer after N bytes; only that one, so whatever the follower
+	// does next (give up, or ask again) meets a working link.
+	for _, mode := range []string{"reset", "eof", "rst"} {
 		for _, comp := range []bool{false, true} {
 			for _, f := range fmts {
 				pp := pos
@@ -123,9 +127,27 @@ func plan(c *vf.Ctx) []spec {
 			}
 		}
 	}
-	cutJobs := 1
+	// the same with a link that stays broken: every connection used for the
+	// request is cut at the same position (quick: binary, every third position)
+	for _, mode := range []string{"eof", "rst"} {
+		for _, comp := range []bool{false, true} {
+			for _, f := range fmts {
+				if f != "binary" && c.Quick() {
+					continue
+				}
+				for k, p := range pos {
+					if c.Quick() && k%3 != 1 {
+						continue
+					}
+					cuts = append(cuts, bcase{No: no, Fmt: f, Compress: comp, Route: "forward", CutMode: mode, CutPos: p, CutAll: true})
+					no++
+				}
+			}
+		}
+	}
+	cutJobs := 2
 	if !c.Quick() {
-		cutJobs = 2
+		cutJobs = 4
 	}
 	for k := 0; k < cutJobs; k++ {
 		var cs []bcase
@@ -139,12 +161,14 @@ func plan(c *vf.Ctx) []spec {
 	if !c.Quick() {
 		// dense sweep: every byte position of the stream of a small database, and
 		// every 97th position of the stream of the large one, for each (compress, mode)
-		for _, mode := range []string{"reset", "eof"} {
+		for _, mode := range []string{"reset", "eof", "rst"} {
 			for _, comp := range []bool{false, true} {
 				d := bcase{No: no, Fmt: "binary", Compress: comp, Route: "forward", CutMode: mode}
 				no++
-				jobs = append(jobs, spec{Kind: "cut", Seed: c.Seed, Writers: writers, Prepop: 8,
-					Dense: &d, DenseLo: 0, DenseHi: 1000, DenseStep: 1})
+				if mode != "rst" {
+					jobs = append(jobs, spec{Kind: "cut", Seed: c.Seed, Writers: writers, Prepop: 8,
+						Dense: &d, DenseLo: 0, DenseHi: 1000, DenseStep: 1})
+				}
 				d2 := d
 				d2.No = no
 				no++
@@ -160,11 +184,11 @@ func plan(c *vf.Ctx) []spec {
 }
 
 func run(c *vf.Ctx) {
-	c.Rule("case = one HTTP backup request against a leader+follower cluster. mix cases: every combination of {binary, delete, sql} x vacuum x compress x tables filter {none, all four, a+meta, b+bal} x {leader, follower forwarding to the leader, follower ?noleader}, issued by two backup clients while 3 writers commit cross-table transactions, plus a storm of binary backups from five clients at once (every binary backup snapshots first, so copies of the main file overlap checkpoints); non-trivial = 200 response that restored while at least one writer committed between request and response, distinct by (combination, restored vector of per-writer last). cut cases: forwarded backup whose follower->leader cluster connection delivers only N bytes (faultnet reset, or a clean close by the peer), N sampled incl. 0, 7/8/9 (response header boundary), 18 (gzip header), last byte, L (quick) or every byte position (thorough); non-trivial = the cut fired, distinct by (format, compress, mode, N)")
+	c.Rule("case = one HTTP backup request against a leader+follower cluster. mix cases: every combination of {binary, delete, sql} x vacuum x compress x tables filter {none, all four, a+meta, b+bal} x {leader, follower forwarding to the leader, follower ?noleader}, issued by two backup clients while 3 writers commit cross-table transactions, plus a storm of binary backups from five clients at once (every binary backup snapshots first, so copies of the main file overlap checkpoints); non-trivial = 200 response that restored while at least one writer committed between request and response, distinct by (combination, restored vector of per-writer last). cut cases (quiescent database): forwarded backup whose follower->leader cluster connection delivers only N bytes, by three kinds of fault: faultnet reset of the next connection dialed; clean close by the peer; connection reset by peer (ECONNRESET) - the latter two applied to the connection the backup command is written on, whether it came from the inter-node connection pool or was newly dialed, and either to that one connection only (transient fault: any further connection the follower opens for the same request works) or to every connection used for the request (link stays broken); N sampled incl. 0, 7/8/9 (response header boundary), 18 (gzip header), per-mille positions over the stream, last byte, L (quick) or every byte position (thorough); a 200 must restore to the committed state and is additionally compared in length with the complete backup; non-trivial = the cut fired, distinct by (format, compress, mode, N)")
 	c.Assume("the restored file is judged with the stock SQLite driver (sqlref), not with rqlite code")
 	c.Assume("writers talk to the leader directly; a writer whose request outcome is unknown stops, so 'started' is an upper bound of what can be committed")
 	c.Assume("no lower bound on freshness is asserted (the property says 'a single point in time', not 'the newest'); staleness is only recorded")
-	c.Assume("the peer-close cut is produced by a harness Dialer handed to a real cluster.Client/proxy/http.Service on the follower; the reset cut by faultnet.CutNextAfter")
+	c.Assume("the peer-close and reset-by-peer cuts are produced by a harness Dialer handed to a real cluster.Client/proxy/http.Service on the follower (read fails with io.EOF / *net.OpError{ECONNRESET}, later writes with EPIPE); the faultnet reset cut by faultnet.CutNextAfter (plain error value)")
 	jobs := plan(c)
 	if c.ReplayFile != "" {
 		jobs = replayJobs(c)
@@ -311,10 +335,17 @@ func judge(c *vf.Ctx, r *bres) {
 		return
 	}
 	if isCut {
-		c.Count("cut:"+bc.CutMode+":cases", 1)
+		c.Count("cut:"+bc.cutName()+":cases", 1)
 		if r.CutFired {
-			c.Count("cut:"+bc.CutMode+":fired", 1)
-			c.Nontrivial(fmt.Sprintf("cut|%s|%v|%s|%d", bc.Fmt, bc.Compress, bc.CutMode, r.N))
+			c.Count("cut:"+bc.cutName()+":fired", 1)
+			c.Nontrivial(fmt.Sprintf("cut|%s|%v|%s|%d", bc.Fmt, bc.Compress, bc.cutName(), r.N))
+			if r.CutPooled {
+				c.Count("cut:"+bc.cutName()+":fired_on_pooled_connection", 1)
+			}
+		}
+		if r.ConnsUsed > 1 {
+			// the follower's inter-node client asked the leader again within one request
+			c.Count("cut:"+bc.cutName()+":request_used_more_than_one_connection", 1)
 		}
 	} else {
 		c.Count("route:"+bc.Route, 1)
@@ -358,7 +389,10 @@ func judge(c *vf.Ctx, r *bres) {
 	what := func(s string) string {
 		cut := ""
 		if isCut {
-			cut = fmt.Sprintf(" with the follower->leader stream cut (%s) after %d of %d bytes", bc.CutMode, r.N, r.L)
+			cut = fmt.Sprintf(" with the follower->leader stream cut (%s) after %d of %d bytes", bc.cutName(), r.N, r.L)
+			if r.ConnsUsed > 0 {
+				cut += fmt.Sprintf(" (the follower sent the backup command on %d connection(s), %d of them cut)", r.ConnsUsed, r.ConnsCut)
+			}
 		}
 		return fmt.Sprintf("GET %s via %s%s answered 200 with a normally terminated body of %d bytes, but %s", bc.query(), bc.Route, cut, r.BodyLen, s)
 	}
@@ -385,13 +419,18 @@ func judge(c *vf.Ctx, r *bres) {
 			if bc.Route == "forward" {
 				key = "error-after-body-started:reported-as-200:forward:" + comp
 			}
+		case isCut && r.RefLen > 0 && int64(r.BodyLen) > r.RefLen:
+			// more than one backup's worth of bytes: output of a failed transfer
+			// was kept and the output of another one added to it
+			key = fmt.Sprintf("partial-output-kept-as-success:forward:%s:%s", comp, bc.cutName())
+			reason += fmt.Sprintf(" (the body is longer than the complete backup, which is %d bytes)", r.RefLen)
 		case bc.Route == "forward" && bc.Compress && (bc.CutMode == "eof" || !isCut):
 			// the leader's end of the inter-node connection was closed before the
 			// end of the stream (injected peer-close, or the leader's own backup
 			// failing: cluster/service.go logs it and closes the connection)
 			key = "truncated-as-success:forward:compress:peer-closed"
 		case isCut:
-			key = fmt.Sprintf("truncated-as-success:forward:%s:%s", comp, bc.CutMode)
+			key = fmt.Sprintf("truncated-as-success:forward:%s:%s", comp, bc.cutName())
 		default:
 			key = fmt.Sprintf("unrestorable:%s:%s:%s", bc.Fmt, comp, bc.Route)
 		}
